@@ -29,8 +29,8 @@ CONSTANTS
   CtrlBatch = 0
   StartIdle = FALSE
   EveryExitStops = TRUE
-  RxDropAtLoopEnd = FALSE
-  DequeueBatch = 0
+  RxDropAtLoopEnd = TRUE
+  DequeueBatch = 2
   QueueCap = 0
 SPECIFICATION Spec
 VIEW View
